@@ -45,3 +45,91 @@ Proof.
       apply String.eqb_eq in E. subst. reflexivity.
   - vm_compute. reflexivity.
 Qed.
+
+(* ------------------------------------------------------------------ the other optional passes (Lift_C02.v) *)
+From SV Require Import c02.Lift_C02.
+
+(* One simulation for every rewrite of the optional passes: e' is e with call sites of inlinable globals replaced by
+   lambda literals, closed lambdas replaced by lifted globals, aliases replaced by their originals, in any combination
+   and nesting (xrel).  For every fuel, global state and environment the target evaluates to a related result,
+   provided the source evaluation never assigns an inlined global, an alias or an aliased original. *)
+Theorem C02_rewrites_preserve :
+  forall (D : defs) (L : ldefs) (M : amap), closed_defs D ->
+  forall n G G' ρ ρ' e e' r G1,
+    GX D L M G G' -> erel D L M ρ ρ' -> xrel D L M e e' ->
+    eval (xprot D M) n G ρ e = Some (r, G1) -> r <> Viol ->
+    exists r' G1', eval [] n G' ρ' e' = Some (r', G1') /\ rrel D L M r r' /\ GX D L M G1 G1'.
+Proof. exact xrel_preserves. Qed.
+
+(* Closure lifting: any set of closed lambdas moved to fresh global definitions L (lift_spec: the program itself never
+   mentions a lifted name; a lifted lambda has no free local variable; nested lifting allowed).  The lifted program,
+   run in a global state that additionally binds the lifted names to their closures (GX), computes related results. *)
+Theorem C02_lift_preserves :
+  forall L n G G' ρ ρ' e e' r G1,
+  lift_spec L e e' -> GX [] L [] G G' -> erel [] L [] ρ ρ' ->
+  eval [] n G ρ e = Some (r, G1) -> r <> Viol ->
+  exists r' G1', eval [] n G' ρ' e' = Some (r', G1') /\ rrel [] L [] r r' /\ GX [] L [] G1 G1'.
+Proof. exact lift_preserves. Qed.
+
+(* The side condition 'no free local variable' is needed: lifting (lambda () x) out of (let ((x 1)) ...) loses x. *)
+Theorem C02_lift_unsound_if_captures :
+  fst_opt (eval [] 20 [] [] lw_src) = Some (Val (VNum 1)) /\
+  fst_opt (eval [] 20 lw_G' [] lw_tgt) = Some Err.
+Proof. exact lift_unsound_if_captures. Qed.
+
+(* Cross-module inlining (STEEL_MODULE_INLINE): aliases replaced by the exporting module's globals, followed by call
+   inlining (one round + k more): meaning preserved as long as neither an alias nor its original is assigned
+   (the global state satisfies: alias and original hold the same value, GX). *)
+Theorem C02_module_inline_preserves :
+  forall D M, closed_defs D -> tables_ok D [] M ->
+  forall k n G G' ρ ρ' e r G1,
+    GX D [] M G G' -> erel D [] M ρ ρ' ->
+    eval (xprot D M) n G ρ e = Some (r, G1) -> r <> Viol ->
+    exists r' G1', eval [] n G' ρ' (inline_rec k D (inline D (alias_subst M e))) = Some (r', G1') /\
+                   rrel D [] M r r' /\ GX D [] M G1 G1'.
+Proof. exact module_inline_preserves. Qed.
+
+(* ... and not otherwise: if the exporting module assigns the original after the alias was taken, the alias keeps the
+   old value but the rewritten program reads the new one.  The implementation checks set! on the alias only: this is
+   observable on the engine (finding C02-MODULE-INLINE-MUTATED-EXPORT). *)
+Theorem C02_module_inline_unsound_if_original_assigned :
+  fst_opt (eval [] 20 aw_G [] aw_prog) = Some (Val (VNum 0)) /\
+  fst_opt (eval [] 20 aw_G [] (alias_subst aw_M aw_prog)) = Some (Val (VNum 1)) /\
+  fst_opt (eval (xprot [] aw_M) 20 aw_G [] aw_prog) = Some Viol.
+Proof. exact alias_unsound_if_original_assigned. Qed.
+
+(* Mangling is an injective renaming of global names; call inlining commutes with it. *)
+Theorem C02_inline_commutes_with_mangling :
+  forall (φ : string -> string), (forall a b, φ a = φ b -> a = b) ->
+  forall D, (forall e, inline (ren_defs φ D) (ren φ e) = ren φ (inline D e)) /\
+            (forall l, inlines (ren_defs φ D) (rens φ l) = rens φ (inlines D l)).
+Proof. exact inline_ren_both. Qed.
+
+(* The pipeline of compiler.rs in its order, every stage optional: module inline (s_mod) -> inline -> lifting (any
+   lift_spec step, the identity included: lift_spec [] e e) -> inline(75) (s75; the lifted definitions go through it
+   too) -> k rounds of recursive inlining (0 or 8): the composed program has the meaning of the original. *)
+Theorem C02_config_irrelevant :
+  forall D M L, closed_defs D -> tables_ok D L M ->
+  forall (s_mod s75 : bool) (k : nat) e e3,
+    lift_spec L (stage2 D (stage1 M s_mod e)) e3 ->
+    let p := stage5 D k (stage4 D s75 (e3, L)) in
+    forall n G G' ρ ρ' r G1,
+      GX D (snd p) M G G' -> erel D (snd p) M ρ ρ' ->
+      eval (xprot D M) n G ρ e = Some (r, G1) -> r <> Viol ->
+      exists r' G1', eval [] n G' ρ' (fst p) = Some (r', G1') /\
+                     rrel D (snd p) M r r' /\ GX D (snd p) M G1 G1'.
+Proof. exact config_irrelevant. Qed.
+
+(* lifting switched off (and the switchable pass lift_closures, which rewrites nothing in this tree) is the identity step *)
+Theorem C02_lift_spec_identity :
+  forall e, lift_spec [] e e.
+Proof. exact lift_spec_refl_nil. Qed.
+
+(* non-vacuity: an alias of an inlinable global, a lifted closed lambda, every switch on *)
+Example C02_config_nonvacuous :
+  closed_defs nv_D /\ tables_ok nv_D nv_L nv_M /\
+  lift_spec nv_L (stage2 nv_D (stage1 nv_M true nv_e)) nv_e3 /\
+  GX nv_D (snd (stage5 nv_D 8 (stage4 nv_D true (nv_e3, nv_L)))) nv_M nv_G nv_G' /\
+  fst_opt (eval (xprot nv_D nv_M) 30 nv_G [] nv_e) = Some (Val (VNum 12)) /\
+  fst_opt (eval [] 30 nv_G' [] (fst (stage5 nv_D 8 (stage4 nv_D true (nv_e3, nv_L))))) = Some (Val (VNum 12)).
+Proof. exact config_nonvacuous. Qed.
